@@ -481,6 +481,7 @@ func init() {
 		p := core.Registry[id]
 		old := p.Run
 		p.Rule += seqRule
+		p.Level = "model_checking" // explicit-state search over the real transition function with a conformance oracle
 		p.Run = func(c *core.Ctx, r *core.Result) {
 			if !strings.HasPrefix(c.Only, "seq/") {
 				old(c, r)
@@ -892,6 +893,10 @@ func (x *seqX) step(n *seqNode, ei int, report bool) (*seqNode, bool) {
 	if report {
 		r.AddState(seqCanon(m, h-era.Base))
 		r.NonTrivial(key)
+		r.Traces++ // the sequence up to this block ran on the real node and agreed with the reference ledger
+		if len(nn.names) >= 2 && len(r.Samples) < 6 {
+			r.Sample(map[string]interface{}{"block_sequence": key, "height": h, "reference_state": seqCanon(m, h-era.Base)})
+		}
 		var sh []string
 		for eh := range m.byHash {
 			s := m.status[eh]
